@@ -6,6 +6,7 @@ import RpcVerif.Model.ServerRun
 import RpcVerif.Model.Spec
 import RpcVerif.Model.Framing
 import RpcVerif.Model.RouterRun
+import RpcVerif.Model.StreamRun
 /-
   rpcmodel — the executable side of the correspondence. Reads one operation per line on
   stdin, prints one canonical result line per operation. Imports Model/ only (core Lean).
@@ -114,4 +115,5 @@ def main (args : List String) : IO UInt32 := do
   | ["e2e"] => loop stdin stdout RpcVerif.Spec.specStep; return 0
   | ["frame"] => loop stdin stdout frameStep; return 0
   | ["router"] => loopSt stdin stdout RpcVerif.R.routerStep none; return 0
+  | ["stream"] => loopSt stdin stdout RpcVerif.T.streamStep none; return 0
   | _ => IO.eprintln "usage: rpcmodel wire"; return 2
